@@ -1067,6 +1067,7 @@ class C19(Check):
             subset = k.sample(names, k.choice([1, 1, 2]))
             n = k.choice([300, 560])
         ops = []
+        rb_rate = k.choice([0.0, 0.1, 0.1, 0.6])  # how often this run's callers re-use their argument buffer objects
         pool = []  # recent (entry, args) so that the same call is repeated after other calls
         for _ in range(n):
             if pool and w.random() < (0.25 if not scale else 0.03):
@@ -1084,6 +1085,8 @@ class C19(Check):
                 op["clock_jump"] = f.choice([-86400.0 * 365 * 30, 3600.0, 86400.0 * 366, -1.0])
             if f.random() < 0.1:
                 op["entropy_reseed"] = f.getrandbits(32)
+            if f.random() < rb_rate:
+                op["rb"] = 1
             ops.append(op)
         if scale:
             ops += [dict(o) for o in ops[:10]]
@@ -1137,6 +1140,8 @@ class C19(Check):
         seams = Seams(2_240_000_000.0, 0xB0B)  # 2040-12
         prev_entries = []
         held = []
+        bufs = {}
+        held_args = {}
         for i, op in enumerate(case["ops"]):
             name = op["entry"]
             if name not in ENTRIES:
@@ -1149,11 +1154,32 @@ class C19(Check):
                 res.fault("entropy_reseed")
             ent = ENTRIES[name]
             args = [mat(x) for x in op["args"]]
+            if op.get("rb"):
+                # a caller that keeps ONE buffer object per parameter and overwrites it in place for every call (same object identity, new content)
+                import numpy as _np
+                from array import array as _array
+                from bitarray import bitarray as _ba
+
+                for ai, a in enumerate(args):
+                    if isinstance(a, (_ba, bytearray, _np.ndarray, _array)):
+                        en = a.endian if isinstance(a, _ba) else None
+                        bk = (name, ai, type(a).__name__, len(a), str(getattr(a, "dtype", "")), en() if callable(en) else en)
+                        if bk in bufs:
+                            b0 = bufs[bk]
+                            # what the library handed back for an earlier call with this very buffer may be, or refer to, the buffer (objects keep
+                            # the bitarrays they were built from): the caller's own overwrite is no library defect -- those results are no longer watched
+                            held[:] = [h for h in held if not any(x is b0 for x in held_args.get(h[0], ()))]
+                            b0[:] = a
+                            args[ai] = b0
+                            res.fault("argument_buffer_object_reused")
+                        else:
+                            bufs[bk] = a
             before = snapshot(args)
             r0 = seams.reads
             kept = []
             got = outcome_of(ent["fn"], args, kept)
             if kept and len(held) < 40 and got[0] == "ok":
+                held_args[i] = list(args)
                 held.append((i, name, kept[0], core.dumps(canon(kept[0]))))  # the caller keeps what it got; it is looked at again after the history
             if seams.reads != r0:
                 res.probe("clock_or_entropy_read_during_codec_call")
